@@ -409,26 +409,27 @@ class XBuffer(ABC):
         else:
             alignment = 1
         # sizepa = size + alignment - 1
-        for chunk in self.chunks:
-            offset = _align(chunk.start, alignment)
-            newend = offset + size
-            if chunk.end >= newend:
-                chunk.start = newend
-                if chunk.size == 0:
-                    self.chunks.remove(chunk)
-                return offset
+        while True:
+            for chunk in self.chunks:
+                offset = _align(chunk.start, alignment)
+                newend = offset + size
+                if chunk.end >= newend:
+                    chunk.start = newend
+                    if chunk.size == 0:
+                        self.chunks.remove(chunk)
+                    return offset
 
-        # no free slot check if can be allocated then try to grow
-        sizepa = size + alignment - 1
-        if sizepa > self.capacity:
-            self.grow(sizepa)
-        elif self.grow_step is not None:
-            self.grow(self.grow_step)
-        else:
-            self.grow(self.capacity)
+            # no free slot check if can be allocated then try to grow
+            sizepa = size + alignment - 1
+            if sizepa > self.capacity:
+                self.grow(sizepa)
+            elif self.grow_step is not None:
+                self.grow(self.grow_step)
+            else:
+                self.grow(self.capacity)
 
-        # try again
-        return self.allocate(size, align=align)
+            # try again (loop instead of recursion: a small grow_step may
+            # need more rounds than the interpreter's recursion limit)
 
     def grow(self, capacity):
         """
